@@ -126,9 +126,25 @@ fn forms(ctx: &mut Ctx, env: &Env, rng: &mut Rng, base: &Engine, descr: &str) {
                 ("&[String], alignment on", ea.synthesize(&strings[..]).map_err(|e| format!("{}", e))),
                 ("Vec<String>, alignment on", ea.synthesize(strings.clone()).map_err(|e| format!("{}", e))),
             ];
-            // time stamps in force: blank lines anywhere between the stamped lines change nothing
+            // time stamps in force: blank lines anywhere between the stamped lines change nothing,
+            // and neither does the speed (a stamp is 100 ns whatever the speaking rate)
             {
                 let plain = ea.synthesize(timed.clone()).map_err(|e| format!("{}", e));
+                {
+                    let mut e1 = ea.clone();
+                    e1.condition.set_speed(if ea.condition.get_speed() == 1.0 { 1.6 } else { 1.0 });
+                    let other = e1.synthesize(timed.clone()).map_err(|e| format!("{}", e));
+                    let agree = match (&plain, &other) {
+                        (Ok(a), Ok(b)) => same(a, b),
+                        (Err(_), Err(_)) => true,
+                        _ => false,
+                    };
+                    ctx.count("aligned_stamped_forms_compared", 1.0);
+                    if !agree {
+                        ctx.violation("time-stamps-depend-on-speed", d(J::obj().set("speed_a", ea.condition.get_speed()).set("speed_b", e1.condition.get_speed()).set("len_a", plain.as_ref().map(|w| w.len() as f64).unwrap_or(-1.0)).set("len_b", other.as_ref().map(|w| w.len() as f64).unwrap_or(-1.0))));
+                        return;
+                    }
+                }
                 let mut with_blanks: Vec<String> = Vec::new();
                 if rng.chance(0.5) {
                     with_blanks.push(String::new());
@@ -183,7 +199,9 @@ fn forms(ctx: &mut Ctx, env: &Env, rng: &mut Rng, base: &Engine, descr: &str) {
 
 fn corrupt(rng: &mut Rng, line: &str) -> (String, &'static str) {
     let bytes = line.as_bytes();
-    match rng.below(17) {
+    match rng.below(19) {
+        17 => (format!("{}{}", line, *rng.pick(&[" ", "  ", "\t", " \r"])), "trailing-whitespace"),
+        18 => (format!("{} {} {}{}", rng.range(0, 1000), rng.range(1000, 90000), line, *rng.pick(&[" ", "  "])), "stamped-trailing-whitespace"),
         0 => {
             // delete a token-ish chunk
             let a = rng.below(bytes.len());
@@ -313,7 +331,15 @@ pub fn run(ctx: &mut Ctx) {
         }
         let mut e = if idx % 50 == 0 { bundled.clone() } else { tiny.clone() };
         e.condition.set_phoneme_alignment_flag(idx % 4 == 0);
-        let r = guard(|| e.synthesize(lines.clone()));
+        // (the three ways to hand over lines take turns)
+        let r = guard(|| match idx % 3 {
+            0 => e.synthesize(lines.clone()),
+            1 => e.synthesize(&lines[..]),
+            _ => {
+                let refs: Vec<&str> = lines.iter().map(|s| s.as_str()).collect();
+                e.synthesize(&refs[..])
+            }
+        });
         // the documented line format decides whether the input is well-formed:
         //   ""                      blank, skipped
         //   "<label>"               no space
